@@ -1454,11 +1454,12 @@ class ArgumentParser(ParserDeprecations, ActionsContainer, ArgumentLinking, argp
                     value = action.type(value)  # type: ignore[operator]
                 elif value is not None:
                     value = [action.type(v) for v in value]  # type: ignore[operator]
-            except (TypeError, ValueError) as ex:
+            except (TypeError, ValueError, argparse.ArgumentTypeError) as ex:
                 raise TypeError(f'Parser key "{key}": {ex}') from ex
         if not is_subcommand and action.choices:
             vals = value if _is_action_value_list(action) else [value]
-            assert isinstance(vals, list)
+            if not isinstance(vals, list):
+                raise TypeError(f'Parser key "{key}": expected a list, got: {value!r}')
             for val in vals:
                 if val not in action.choices:
                     raise TypeError(f'Parser key "{key}": {val!r} not among choices {action.choices}')
